@@ -143,7 +143,11 @@ DoSettled(s, e) ==
   LET a0 == Vif(s, e.resident > s.maxsize, "C15", "memory_tier_above_maxsize_after_settling")
       \* the same observation is C02's: after everything has drained the resident entries (unit costs) fit MaxSize
       a == Vif(a0, e.resident > s.maxsize, "C02", "hybrid_resident_entries_above_maxsize_after_settling")
-  IN Vif(a, s.failing = 1 /\ s.lastfail /\ e.errs = 0, "C15", "secondary_failure_not_reported_to_error_handler")
+      \* C02 on the hybrid store: with the queue drained and the workers idle, the policy knows exactly the resident
+      \* entries (nothing resident that can no longer be evicted, nothing tracked that is gone) with their costs
+      b == Vif(a, "ghost" \in DOMAIN e /\ ~s.closed /\ (e.ghost > 0 \/ e.untracked > 0 \/ e.ws # e.rcost), "C02",
+               "hybrid_policy_view_differs_from_resident_entries_after_settling")
+  IN Vif(b, s.failing = 1 /\ s.lastfail /\ e.errs = 0, "C15", "secondary_failure_not_reported_to_error_handler")
 
 Upd(s0, e) ==
   LET s == s0 IN
